@@ -9,6 +9,10 @@
 EXTENDS Ps2Frame, Report, IOUtils
 
 G == ndJsonDeserialize(IOEnv.GRAPH)
+(* the real add_word's verdict on every word (t_words table): C06 relates the two paths of the *)
+(* implementation to each other; C05 separately pins add_word to CheckWord.                   *)
+W == ndJsonDeserialize(IOEnv.WORDS)
+ImplCheck(w) == W[(w \div 256) + 1].r[(w % 256) + 1]
 Comp == IOEnv.COMP
 IOut(x, a) == G[x].out[a]
 INext(x, a) == G[x].post[a]
@@ -16,12 +20,12 @@ INext(x, a) == G[x].post[a]
 VARIABLE i
 cvars == <<bits, fout, i>>
 
-SpecOut(bs, a) == IF a = 3 THEN None ELSE AddBitOut(bs, a - 1)
+SpecOut(bs, a) == IF a = 3 THEN None ELSE AddBitOutWith(ImplCheck, bs, a - 1)
 SpecNext(bs, a) == IF a = 3 THEN <<>> ELSE AddBitNext(bs, a - 1)
 InputName(a) == IF a = 3 THEN <<"clear">> ELSE <<"bit", a - 1>>
 
 CInit == FrameInit /\ i = 1
-CNext == \E a \in 1..3 : /\ INext(i, a) # 0
+CNext == \E a \in 1..3 : /\ G[i].expanded /\ INext(i, a) # 0
                          /\ (IF a = 3 THEN Clear ELSE AddBit(a - 1))
                          /\ i' = INext(i, a)
 CSpec == CInit /\ [][CNext]_cvars
